@@ -305,6 +305,7 @@ def update_fact(ad: ES, var_pre, gen):
         "asym": min(asym, 2**30),
         "finite": finite,
         "capped": bool(exact.ord32(float(st.var)) >= exact.ord32(bound) - 16),
+        "excess": exact.ord32(float(st.var)) - exact.ord32(bound),
         "path": list(ad.path),
         "params": ad.params,
     }
@@ -397,7 +398,15 @@ def es_cover(rep, G, params, facts, label):
     import time
 
     t0 = time.time()
-    res = graph.cover(G, G.roots()[0], lambda: ES(facts=facts, **params), lambda o, op, a, e, pre, post: es_step(o, op, a, e, pre, post, rep.seed), es_project, clone=lambda o: o.clone())
+    try:
+        first = ES(facts=facts, **params)
+    except Mismatch as m:
+        rep.violation(m.detail.get("key", "cmaes:create"), f"CMA-ES {label}: {m.what}", {"kind": "es", "params": params, "path": [], "detail": m.detail})
+        return {"edges_tested": 0, "violations": []}
+    except Exception as ex:  # noqa: BLE001
+        rep.violation(f"cmaes:create:exception:{type(ex).__name__}", f"CMA-ES {label}: creating config / state / first population raised {type(ex).__name__}: {str(ex)[:100]}", {"kind": "es", "params": params, "path": []})
+        return {"edges_tested": 0, "violations": []}
+    res = graph.cover(G, G.roots()[0], lambda: first, lambda o, op, a, e, pre, post: es_step(o, op, a, e, pre, post, rep.seed), es_project, clone=lambda o: o.clone())
     rep.extra.setdefault("replay_wall_s", {})[label] = round(time.time() - t0, 1)
     rep.traces += res["edges_tested"]
     for v in res["violations"]:
@@ -421,13 +430,18 @@ def tw():
 
 
 # ================================================================== CMA-ES
-def weight_facts():
+def weight_facts(rep=None):
     from rl_blox.algorithm import cmaes as C
 
     facts = []
     cases = [(n, 2) for n in range(2, 41)] + [(None, d) for d in (1, 2, 3, 10, 100, 1000)]
     for n, d in cases:
-        cfg = C.CMAESConfig.create(active=False, bounds=None, maximize=False, min_variance=None, min_fitness_dist=0.0, max_condition=None, n_params=d, n_samples_per_update=n)
+        try:
+            cfg = C.CMAESConfig.create(active=False, bounds=None, maximize=False, min_variance=None, min_fitness_dist=0.0, max_condition=None, n_params=d, n_samples_per_update=n)
+        except Exception as ex:  # noqa: BLE001  (the code under test raised where the specification defines a configuration)
+            if rep is not None:
+                rep.violation(f"cmaes:config:exception:{type(ex).__name__}", f"CMAESConfig.create(n_params={d}, n_samples_per_update={n}) raised {type(ex).__name__}: {str(ex)[:100]}", {"kind": "weights", "fact": {"n": n, "d": d}})
+            continue
         w = np.asarray(cfg.weights)
         if w.dtype != np.float32:
             raise tlc.MachineryError(f"weights are {w.dtype}, the ordinal device needs float32")
@@ -450,7 +464,7 @@ def es_plan(quick):
     if quick:
         return [
             ((2, 3, "FeedAll", False, True), [R(1), Z]),
-            ((3, 2, "FeedAll", True, False), [R(2), Z]),
+            ((3, 2, "FeedMid", True, False), [R(2), Z]),
             ((4, 2, "FeedSmall", False, True), [R(3), Cd]),
             ((5, 2, "FeedInfNan", True, False), [R(1, bounds=0.5), Cd]),
             ((6, 2, "FeedTies", True, True), [R(2, cov0="full"), Cd, Z]),
@@ -467,12 +481,16 @@ def es_plan(quick):
     return plan
 
 
+def s31(x):
+    return int(x) % 2**31
+
+
 def run_cmaes(rep, quick):
     jobs, names = [], []
     # ---- properties on the model: incumbent properties against the ghost history
     hist_runs = [(2, 3, "FeedAll"), (3, 2, "FeedAll")] if quick else [(2, 3, "FeedAll"), (3, 2, "FeedAll"), (4, 2, "FeedSmall"), (2, 4, "FeedMid"), (5, 1, "FeedAll")]
     for n, g, feed in hist_runs:
-        for mx in (False, True):
+        for mx in ((n % 2 == 1,) if quick else (False, True)):
             c = dict(N=n, MaxGen=g, Feed=tlc.Subst(feed), Maximize=mx, Active=False, HIST=True, EMIT=False)
             jobs.append(lambda c=c: tlc.run("Optimisers", tlc.cfg_text(constants=c, invariants=ES_INVS_HIST, properties=["IncumbentMonotone"]), workers=tw(), tag="eshist"))
             names.append(f"Optimisers N={n} gens={g} {feed} maximize={mx}: incumbent invariants with history")
@@ -505,7 +523,7 @@ def run_cmaes(rep, quick):
 
     # ---- spec -> code: every transition of the graph into the real functions
     graphs = par([lambda cfg=cfg: es_graph(*cfg, tag="esgen") for cfg, _ in plan])
-    facts = weight_facts()
+    facts = weight_facts(rep)
     n_weight = len(facts)
     edges = nontrivial = 0
     seen_tells = set()
@@ -514,7 +532,7 @@ def run_cmaes(rep, quick):
         if not G.roots():
             raise tlc.MachineryError("empty CMA-ES graph")
         for a in adapters:
-            params = dict(n=n, active=act, maximize=mx, seed=rep.seed * 7919 + 13 * n + 1, **a)
+            params = dict(n=n, active=act, maximize=mx, seed=(rep.seed * 7919 + 13 * n + 1) % 2**31, **a)
             res = es_cover(rep, G, params, facts, f"N={n} {a['mode']} d={a['d']} active={act} maximize={mx}")
             edges += res["edges_tested"]
         # non-trivial: a Tell that meets an evaluated incumbent or an Update, counted once per graph
@@ -528,7 +546,12 @@ def run_cmaes(rep, quick):
     e0 = copy.deepcopy(next(e for e in g0.emitted if e["op"] == "Tell" and e["pre"]["it"] == 0 and e["post"]["bestId"] == 1))
     e0["post"]["bestId"] = 0
     n0, _, _, mx0, act0 = plan[0][0]
-    bad = graph.cover(graph.Graph([e0]), graph.canon(e0["pre"]), lambda: ES(n=n0, d=1, active=act0, maximize=mx0, mode="real", seed=1), es_step, es_project, clone=lambda o: o.clone())
+    try:
+        bad = graph.cover(graph.Graph([e0]), graph.canon(e0["pre"]), lambda: ES(n=n0, d=1, active=act0, maximize=mx0, mode="real", seed=1), es_step, es_project, clone=lambda o: o.clone())
+    except Exception as ex:  # noqa: BLE001  (only acceptable if the code under test is already known to be broken)
+        if not rep.violations:
+            raise tlc.MachineryError(f"binding canary could not run: {type(ex).__name__}: {ex}")
+        bad = {"violations": ["skipped"]}
     if not bad["violations"]:
         raise tlc.MachineryError("binding canary: corrupted incumbent id not noticed by the replay")
 
@@ -546,14 +569,15 @@ def run_cmaes(rep, quick):
             else:
                 rep.violation(f"cmaes:update:{pname}", f"update_search_distribution (N={f['n']}, d={f['d']}, active={f['active']}, {f['mode']}): {pname} fails", {"kind": "es-fact", "fact": f})
     # fact canary
-    badf = copy.deepcopy(slim[1])
-    badf["ords"] = list(reversed(badf["ords"])) if len(badf["ords"]) > 1 else [0]
-    badu = copy.deepcopy(next(f for f in slim if f["kind"] == "update"))
-    badu["ordVarPost"] = badu["ordBound"] + 4096
-    _, cf = judge_facts([slim[5], badf, badu], tag="esfactsbad")
-    if sorted(i for i, _ in cf) != [1, 2]:
+    goodf = {"kind": "weights", "n": 4, "d": 2, "mu": 2, "ords": [exact.ord32(0.75), exact.ord32(0.25)], "sumLo": exact.ord32(1.0), "sumHi": exact.ord32(1.0)}
+    badf = dict(goodf, ords=list(reversed(goodf["ords"])))
+    goodu = {"kind": "update", "gen": 1, "n": 4, "d": 2, "mu": 2, "active": False, "ordVarPre": exact.ord32(1.0), "ordVarPost": exact.ord32(2.0), "ordBound": exact.ord32(3.0), "minDiagOrd": exact.ord32(0.5), "asym": 1, "finite": True}
+    badu = dict(goodu, ordVarPost=goodu["ordBound"] + 4096)
+    badc = dict(goodu, minDiagOrd=exact.ord32(-0.125))
+    _, cf = judge_facts([goodf, badf, goodu, badu, badc], tag="esfactsbad")
+    if [(i, p) for i, p in cf] != [(1, ["WeightsNonIncreasing"]), (3, ["StepSizeBounded"]), (4, ["VariancesPositive"])]:
         raise tlc.MachineryError(f"canary: corrupted facts not (only) flagged: {cf}")
-    upd = [f for f in facts if f["kind"] == "update"]
+    upd = [f for f in facts if f["kind"] == "update"] or [dict(goodu, capped=False, mean="-", excess=0)]
     rep.extra["cmaes"] = {
         "graph_edges_replayed": edges,
         "updates_logged": len(upd),
@@ -561,6 +585,7 @@ def run_cmaes(rep, quick):
         "mean_checked_exactly": sum(f["mean"] == "exact" for f in upd),
         "mean_checked_float32_recomputation": sum(f["mean"] == "float32" for f in upd),
         "max_asymmetry_half_ulps": max(f["asym"] for f in upd),
+        "max_step_size_excess_ordinals": max(f["excess"] for f in upd),
         "weight_facts": n_weight,
     }
     return edges, nontrivial
@@ -684,6 +709,8 @@ def special_round_trip(name, make, seed):
     p0 = np.asarray(C.flat_params(net))
     rng = np.random.default_rng(seed)
     v = rng.integers(0, 2**32, size=len(p0), dtype=np.uint32)
+    snan = ((v & 0x7F800000) == 0x7F800000) & ((v & 0x007FFFFF) != 0)
+    v[snan] |= 0x00400000  # quiet NaNs only: signalling NaNs may legitimately be quietened by a copy
     idx = rng.permutation(len(p0))[: min(len(SPECIALS), len(p0))]
     v[idx] = SPECIALS[: len(idx)]
     vf = v.view(np.float32)
@@ -917,7 +944,7 @@ def run_cem(rep, quick):
     # ---- real generator: candidates and means inside the box (TLC judges the excess facts)
     facts = []
     rng = np.random.default_rng(rep.seed + 5)
-    key = jax.random.key(rep.seed + 5)
+    key = jax.random.key(s31(rep.seed + 5))
     for case in range(6 if quick else 40):
         d = 1 + case % 3
         dy = case % 2 == 0
@@ -939,8 +966,8 @@ def run_cem(rep, quick):
             facts.append(dict(box_fact(s, lb, ub, 0 if dy else 3, "cem_sample"), case=case))
             iters, n, ne = 4, 8, 2 + case % 3
             sol, path, hist = M.optimize_cem(lambda x: -jnp.sum((x - 0.7) ** 2, axis=1), jnp.asarray(mean), jnp.asarray(var), k2, iters, n, ne, jnp.asarray(lb), jnp.asarray(ub), epsilon=0.0, return_history=True)
-            facts.append(dict(box_fact(np.asarray(hist), lb, ub, 0 if dy else 3 + iters * (ne + 3), "optimize_cem samples"), case=case))
-            facts.append(dict(box_fact(np.asarray(path), lb, ub, 0 if dy and ne in (2, 4) else iters * (ne + 3), "optimize_cem means"), case=case))
+            facts.append(dict(box_fact(np.asarray(hist), lb, ub, 3 + iters * (ne + 3), "optimize_cem samples"), case=case))
+            facts.append(dict(box_fact(np.asarray(path), lb, ub, iters * (ne + 3), "optimize_cem means"), case=case))
         except Exception as ex:  # noqa: BLE001
             rep.violation("cem:exception:" + type(ex).__name__, f"CEM with a real generator raised {type(ex).__name__}: {str(ex)[:120]}", {"kind": "cem-real", "case": case, "seed": rep.seed})
     res, failed = judge_facts(facts, tag="cemfacts")
@@ -1122,7 +1149,7 @@ def validate_traces(module, traces, constants, invariants, init="Init", next="Ne
         shutil.rmtree(d, ignore_errors=True)
     if r.ok:
         return r, None, None
-    tail = r.error_trace[r.error_trace.rfind("State ") :]
+    tail = r.stdout[r.stdout.rfind("\nState ") :]  # the last state of the counterexample
     mt = re.search(r"/\\ tr = (\d+)", tail)
     mi = re.search(r"/\\ i = (\d+)", tail)
     return r, (int(mt.group(1)) - 1 if mt else 0), (int(mi.group(1)) if mi else -1)
@@ -1165,15 +1192,15 @@ def run_train(rep, quick):
     groups = {}
     for pi, p in enumerate(plan):
         try:
-            ev = record_train(p["n"], p["d"], p["total"], p["script"], p["active"], rep.seed + pi)
+            ev = record_train(p["n"], p["d"], p["total"], p["script"], p["active"], s31(rep.seed + pi))
         except Mismatch as m:
-            rep.violation(m.detail.get("key", "train_cmaes:recorder"), f"train_cmaes: {m.what}", {"kind": "train", "plan": p, "seed": rep.seed + pi})
+            rep.violation(m.detail.get("key", "train_cmaes:recorder"), f"train_cmaes: {m.what}", {"kind": "train", "plan": p, "seed": s31(rep.seed + pi)})
             continue
         except Exception as ex:  # noqa: BLE001
             import traceback
 
             tb = traceback.extract_tb(ex.__traceback__)
-            rep.violation(f"train_cmaes:exception:{type(ex).__name__}", f"train_cmaes raised {type(ex).__name__} at {tb[-1].name}: {str(ex)[:120]}", {"kind": "train", "plan": p, "seed": rep.seed + pi})
+            rep.violation(f"train_cmaes:exception:{type(ex).__name__}", f"train_cmaes raised {type(ex).__name__} at {tb[-1].name}: {str(ex)[:120]}", {"kind": "train", "plan": p, "seed": s31(rep.seed + pi)})
             continue
         gens = -(-p["total"] // p["n"])
         groups.setdefault((p["n"], gens, p["active"]), []).append((pi, ev))
@@ -1191,18 +1218,20 @@ def run_train(rep, quick):
             rep.violation(
                 f"train_cmaes:{r.violated}:{op}",
                 f"train_cmaes trace (N={n}, active={active}) is not a behaviour of the ask/tell specification: {r.violated} at event {at} {ev[at] if 0 <= at < len(ev) else ''} (previous: {ev[max(0, at - 3):at]})",
-                {"kind": "train", "plan": plan[pi], "seed": rep.seed + pi, "stuck_at": at},
+                {"kind": "train", "plan": plan[pi], "seed": s31(rep.seed + pi), "stuck_at": at},
             )
     # canary: traces of realistic wrong loops must be rejected
-    (n, gens, active), items = next(iter(groups.items())) if groups else ((None, None, None), [])
-    if items:
-        ev = items[0][1]
+    good = [(k, ev) for k, its in groups.items() for _, ev in its if any(e["op"] == "Update" for e in ev) and ev[-1]["op"] == "Return" and ev[-2]["op"] == "SetParams"]
+    if not good and not rep.violations:
+        raise tlc.MachineryError("no train_cmaes trace with an update to build the canaries from")
+    if good:
+        (n, gens, active), ev = good[0]
         c = dict(N=n, MaxGen=gens, Feed=tlc.Subst("FeedAll"), Maximize=True, Active=active, HIST=False, EMIT=False)
         no_reset = [e for j, e in enumerate(ev) if not (e["op"] == "Reset" and j > 2 and ev[j - 1]["op"] == "Step")]  # no reset between candidates
         j = next(j for j, e in enumerate(ev) if e["op"] == "Update")
         late_update = ev[:j] + ev[j + 2 :]  # generation boundary without update / fresh population
         wrong_final = copy.deepcopy(ev)
-        wrong_final[-2]["id"] = wrong_final[-3]["bestId"] if wrong_final[-3].get("bestId") else 1  # best candidate instead of the mean
+        wrong_final[-2]["id"] = 1  # a candidate instead of the mean
         for name, t in (("no reset between candidates", no_reset), ("missing update", late_update), ("final parameters are not the mean", wrong_final)):
             r, bad, at = validate_traces("OptimisersTrain", [t], c, ["Accepted"], init="TInit", next="TNext", tag="trainbad")
             if bad is None:
@@ -1225,7 +1254,7 @@ def record_cem_loop(p, seed):
     d = p["d"]
     rng = np.random.default_rng(seed)
     mean0 = np.asarray(rng.integers(-2, 3, size=d) / 4.0, dtype=np.float32)
-    var0 = np.asarray([p["var"]] * d, dtype=np.float32)
+    var0 = np.asarray([p["var"] / 4.0**j for j in range(d)], dtype=np.float32)  # max(var) and min(var) differ
     lb, ub = np.full(d, -1.0, dtype=np.float32), np.full(d, 2.0, dtype=np.float32)
     dists = [digest(mean0, var0)]
     pops, fits, keys = [], [], set()
@@ -1287,15 +1316,16 @@ def run_cemloop(rep, quick):
         dict(d=2, n=3, ne=4, iters=2, eps=0.001, var=1.0, alpha=0.25, hist=False),  # more elites than candidates
         dict(d=3, n=8, ne=2, iters=6, eps=0.05, var=1.0, alpha=0.0, hist=True),  # epsilon stop in the middle
         dict(d=2, n=4, ne=1, iters=0, eps=0.001, var=1.0, alpha=0.25, hist=False),
+        dict(d=2, n=4, ne=2, iters=1, eps=0.5, var=1.0, alpha=0.25, hist=True),  # min(var) <= epsilon < max(var): continues
     ]
     if not quick:
         plan += [dict(d=1 + k % 3, n=4 + k, ne=1 + k % 4, iters=1 + k % 5, eps=[0.001, 0.02, 0.2][k % 3], var=[1.0, 0.25, 4.0][k % 3], alpha=[0.25, 0.5, 0.0, 1.0][k % 4], hist=bool(k % 2)) for k in range(12)]
     traces = []
     for pi, p in enumerate(plan):
         try:
-            traces.append((pi, record_cem_loop(p, rep.seed + pi)))
+            traces.append((pi, record_cem_loop(p, s31(rep.seed + pi))))
         except Exception as ex:  # noqa: BLE001
-            rep.violation(f"optimize_cem:exception:{type(ex).__name__}", f"optimize_cem raised {type(ex).__name__}: {str(ex)[:120]}", {"kind": "cemloop", "plan": p, "seed": rep.seed + pi})
+            rep.violation(f"optimize_cem:exception:{type(ex).__name__}", f"optimize_cem raised {type(ex).__name__}: {str(ex)[:120]}", {"kind": "cemloop", "plan": p, "seed": s31(rep.seed + pi)})
     invs = ["Accepted", "IterationsBounded"]
     remaining = list(traces)
     n_events = sum(len(t) for _, t in traces)
@@ -1309,18 +1339,21 @@ def run_cemloop(rep, quick):
             break
         pi, ev = remaining.pop(bad)
         op = ev[at]["op"] if 0 <= at < len(ev) else "end"
-        rep.violation(f"optimize_cem:{r.violated}:{op}", f"optimize_cem trace rejected at event {at}: {ev[at] if 0 <= at < len(ev) else ''} (call {ev[0]})", {"kind": "cemloop", "plan": plan[pi], "seed": rep.seed + pi})
+        rep.violation(f"optimize_cem:{r.violated}:{op}", f"optimize_cem trace rejected at event {at}: {ev[at] if 0 <= at < len(ev) else ''} (call {ev[0]})", {"kind": "cemloop", "plan": plan[pi], "seed": s31(rep.seed + pi)})
     rep.traces += len(traces)
-    if traces:
-        ev = copy.deepcopy(traces[0][1])
-        j = next(j for j, e in enumerate(ev) if e["op"] == "Update")
-        ev[j]["dist"] = ev[j]["dist"] + 1 if j > 4 else -1  # update from a stale distribution
-        ev2 = [e for e in traces[0][1] if e["op"] != "Fitness"][:-1] + [traces[0][1][-1]]
+    good = [t for _, t in traces if sum(e["op"] == "Update" for e in t) >= 2 and t[-1]["op"] == "Return"]
+    if not good and not rep.violations:
+        raise tlc.MachineryError("no optimize_cem trace with two updates to build the canaries from")
+    if good:
+        ev = copy.deepcopy(good[0])
+        j = max(j for j, e in enumerate(ev) if e["op"] == "Update")
+        ev[j]["dist"] -= 1  # update from a stale distribution
+        ev2 = [e for e in good[0] if e["op"] != "Fitness"]
         for name, t in (("stale distribution", ev), ("fitness never evaluated", ev2)):
             r, bad, at = validate_traces("OptimisersCemLoop", [t], dict(), ["Accepted"], tag="cemloopbad")
             if bad is None:
                 raise tlc.MachineryError(f"canary: corrupted optimize_cem trace accepted ({name})")
-        rep.sample({"optimize_cem": traces[0][1][:5]}, cap=8)
+        rep.sample({"optimize_cem": good[0][:5]}, cap=8)
     rep.extra["optimize_cem"] = {"runs": len(plan), "events_validated": n_events}
     return len(plan), len(plan)
 
